@@ -383,6 +383,16 @@ func traceConcStore(t *testing.T, o opts) {
 					}
 				}()
 			}
+			// ... and one more, of a name the service does not have, at the same time: it fails, and
+			// its failure must not cost the successful ones their place in the cache
+			nfDone := make(chan struct{})
+			go func() {
+				defer close(nfDone)
+				defer func() { recover() }()
+				cx, cancel := context.WithTimeout(context.Background(), 30*time.Second)
+				defer cancel()
+				st.LookupSecret(cx, fmt.Sprintf("absent%d", round))
+			}()
 			lookDone := make(chan struct{})
 			go func() {
 				defer close(lookDone)
@@ -472,6 +482,7 @@ func traceConcStore(t *testing.T, o opts) {
 			<-lookDone
 			<-freshDone
 			<-freshDone
+			<-nfDone
 			// everything has settled: the cache document is the store's current state - every secret
 			// with a handle is in it, at the version the handle yields
 			if doc := sc.doc(); doc != nil {
